@@ -546,6 +546,53 @@ fn rgb_point(case: &RgbCase, obs: &mut Obs) -> PropResult {
     ensure!(llb.luma == decode_f32(0, el.luma as u32), "Luma into_linear differs from table");
     let elf: SrgbLuma<f64> = palette::LinLuma::<palette::white_point::D65, f64>::new(r).into_encoding();
     ensure!(elf.luma == enc_call::<Srgb>(r), "Luma<f64> into_encoding differs from the float curve");
+    // every standard, as an RGB standard and as a luma standard, is wired to its own curve (by name, not through the
+    // standard's associated TransferFn type) in both directions, float and integer
+    macro_rules! wiring {
+        ($S:ty, $Wp:ty, $Tf:ty, $k:expr, $name:expr) => {{
+            use palette::luma::Luma;
+            let _ = $k;
+            let want = enc_call::<$Tf>(g);
+            let rgb: Rgb<$S, f64> = Rgb::<encoding::Linear<<$S as palette::rgb::RgbStandard>::Space>, f64>::new(r, g, b).into_encoding();
+            ensure!(rgb.green == want, "Rgb<{}>::into_encoding({}) = {}, the {} curve gives {}", $name, g, rgb.green, stringify!($Tf), want);
+            let lin: Rgb<encoding::Linear<<$S as palette::rgb::RgbStandard>::Space>, f64> = rgb.into_linear();
+            ensure!(lin.green == <$Tf as IntoLinear<f64, f64>>::into_linear(rgb.green), "Rgb<{}>::into_linear differs from the {} curve", $name, stringify!($Tf));
+            let luma: Luma<$S, f64> = Luma::<encoding::Linear<$Wp>, f64>::new(g).into_encoding();
+            ensure!(luma.luma == want, "Luma<{}>::into_encoding({}) = {}, the {} curve gives {}", $name, g, luma.luma, stringify!($Tf), want);
+            let ll: Luma<encoding::Linear<$Wp>, f64> = luma.into_linear();
+            ensure!(ll.luma == <$Tf as IntoLinear<f64, f64>>::into_linear(luma.luma), "Luma<{}>::into_linear differs from the {} curve", $name, stringify!($Tf));
+            let lf: Luma<$S, f32> = Luma::<encoding::Linear<$Wp>, f32>::new(gf).into_encoding();
+            ensure!(lf.luma == <$Tf as FromLinear<f32, f32>>::from_linear(gf), "Luma<{}, f32>::into_encoding differs from the {} curve", $name, stringify!($Tf));
+        }};
+    }
+    macro_rules! wiring_int {
+        ($S:ty, $Wp:ty, $Tf:ty, $U:ty, $k:expr, $name:expr) => {{
+            use palette::luma::Luma;
+                let l8: Luma<$S, $U> = Luma::<encoding::Linear<$Wp>, f32>::new(gf).into_encoding();
+                ensure!(l8.luma as u32 == encode_f32($k, gf), "Luma<{}, {}>::into_encoding({}) = {}, the {} encoder gives {}", $name, stringify!($U), gf, l8.luma, stringify!($Tf), encode_f32($k, gf));
+                let back: Luma<encoding::Linear<$Wp>, f32> = l8.into_linear();
+                ensure!(back.luma == decode_f32($k, l8.luma as u32), "Luma<{}, {}>::into_linear differs from the {} table", $name, stringify!($U), stringify!($Tf));
+                let r8: Rgb<$S, $U> = Rgb::<encoding::Linear<<$S as palette::rgb::RgbStandard>::Space>, f32>::new(rf, gf, bf).into_encoding();
+                ensure!(r8.green as u32 == encode_f32($k, gf), "Rgb<{}, {}>::into_encoding differs from the {} encoder", $name, stringify!($U), stringify!($Tf));
+        }};
+    }
+    use palette::white_point::{D50, D65};
+    wiring!(encoding::Srgb, D65, Srgb, 0, "Srgb");
+    wiring!(encoding::Rec709, D65, RecOetf, 1, "Rec709");
+    wiring!(encoding::Rec2020, D65, RecOetf, 1, "Rec2020");
+    wiring!(encoding::AdobeRgb, D65, AdobeRgb, 2, "AdobeRgb");
+    wiring!(encoding::DisplayP3, D65, Srgb, 0, "DisplayP3");
+    wiring!(encoding::DciP3, encoding::DciP3, P3Gamma, 3, "DciP3");
+    wiring!(encoding::DciP3Plus<P3Gamma>, encoding::DciP3, P3Gamma, 3, "DciP3Plus<P3Gamma>");
+    wiring!(encoding::ProPhotoRgb, D50, ProPhotoRgb, 4, "ProPhotoRgb");
+    wiring_int!(encoding::Srgb, D65, Srgb, u8, 0, "Srgb");
+    wiring_int!(encoding::Rec709, D65, RecOetf, u8, 1, "Rec709");
+    wiring_int!(encoding::Rec2020, D65, RecOetf, u8, 1, "Rec2020");
+    wiring_int!(encoding::AdobeRgb, D65, AdobeRgb, u8, 2, "AdobeRgb");
+    wiring_int!(encoding::DisplayP3, D65, Srgb, u8, 0, "DisplayP3");
+    wiring_int!(encoding::DciP3, encoding::DciP3, P3Gamma, u8, 3, "DciP3");
+    wiring_int!(encoding::DciP3Plus<P3Gamma>, encoding::DciP3, P3Gamma, u8, 3, "DciP3Plus<P3Gamma>");
+    wiring_int!(encoding::ProPhotoRgb, D50, ProPhotoRgb, u16, 4, "ProPhotoRgb");
     Ok(())
 }
 fn enc_call<C: FromLinear<f64, f64>>(x: f64) -> f64 {
